@@ -223,6 +223,22 @@ pub fn generate(ctx: &mut Ctx) {
             named.push(Value::Dict(dd));
         }
     }
+    // records whose display macro leads back to itself or to each other (whatever the expansion does with the
+    // substituted text, it must come back)
+    for tags in [
+        vec![("disMacro", "$disMacro")],
+        vec![("disMacro", "${disMacro} x")],
+        vec![("navName", "Fan of $navName"), ("disMacro", "$equipRef $navName")],
+        vec![("a", "<$b>"), ("b", "<$a>"), ("disMacro", "${a}")],
+        vec![("dis", "$dis"), ("disMacro", "$dis $name"), ("name", "$disMacro")],
+        vec![("disKey", "$disKey"), ("disMacro", "$<$disMacro> $disKey")],
+    ] {
+        let mut dd = Dict::new();
+        for (k, v) in tags {
+            dd.insert(k.into(), Value::make_str(v));
+        }
+        named.push(Value::Dict(dd));
+    }
     for v in named {
         ctx.case("named", &format!("v {}", vx::show(&v)));
     }
